@@ -74,7 +74,7 @@ VC_ASSIGNS(a->used, a->sign, __CPROVER_object_upto(a->dp, sizeof(a->dp)), g_read
 __CPROVER_ensures(VC_BN_ANY(a) && g_read_len == len)
 ;
 void bn_rsh_g(bn_t c, const bn_t a, uint_t bits)
-__CPROVER_requires(VC_BNP(a) && __CPROVER_pointer_equals(c, a) && bits < 8)
+__CPROVER_requires(VC_BNP(a) && __CPROVER_pointer_equals(c, a) && bits <= 8 * RLC_MD_LEN)
 VC_ASSIGNS(c->used, c->sign, __CPROVER_object_upto(c->dp, sizeof(c->dp)), g_rsh_bits)
 __CPROVER_ensures(VC_BN_ANY(c) && g_rsh_bits == bits)
 ;
@@ -126,4 +126,26 @@ __CPROVER_ensures(__CPROVER_return_value == 1 ==> (8 * (hash ? len : (size_t)RLC
 	(g_read_len == (g_ord_bits + 7) / 8 && g_rsh_bits == 8 * ((g_ord_bits + 7) / 8) - g_ord_bits) : (g_read_len == (hash ? len : (size_t)RLC_MD_LEN) && g_rsh_bits == 0)))
 __CPROVER_ensures(g_ctx.last == __CPROVER_old(g_ctx.last))
 ;
+#ifdef VC_WITH_ECSS
+extern const void *__CPROVER_alloca_object;
+void bn_write_bin_g(uint8_t *bin, size_t len, const bn_t a)
+__CPROVER_requires(len <= 4096 && __CPROVER_is_fresh(bin, len) && VC_BNP(a))
+VC_ASSIGNS(__CPROVER_object_upto(bin, len));
+/* EC-Schnorr verification: same guard discipline; here g_r stands for the first component e */
+int cp_ecss_ver(bn_t e, bn_t s, const uint8_t *msg, size_t len, const ec_t q)
+__CPROVER_requires(VC_BNP(e) && VC_BNP(s) && __CPROVER_is_fresh(q, sizeof(ep_st)) && VC_BN_ANY(e) && VC_BN_ANY(s))
+__CPROVER_requires(len <= 72 && __CPROVER_is_fresh(msg, len))
+__CPROVER_requires(g_r == e && g_s == s && g_q == q && g_ord_bits >= 1 && g_ord_bits <= 521)
+__CPROVER_requires(g_sign_r == VC_UNASKED && g_sign_s == VC_UNASKED && g_zero_r == VC_UNASKED && g_zero_s == VC_UNASKED && g_cmp_r == VC_UNASKED && \
+	g_cmp_s == VC_UNASKED && g_oncurve == VC_UNASKED && g_infty == VC_UNASKED && g_infty_q == VC_UNASKED && g_cmpsec == VC_UNASKED && g_md_calls == 0 && g_mulsim_calls == 0 && g_read_len == 0 && g_rsh_bits == 0)
+VC_ASSIGNS(__CPROVER_alloca_object, g_sign_r, g_sign_s, g_zero_r, g_zero_s, g_cmp_r, g_cmp_s, g_oncurve, g_infty, g_infty_q, g_cmpsec, g_cmpsec_len, g_last_mod_used, g_read_len, g_rsh_bits, g_md_calls, g_mulsim_calls, \
+	g_ctx.code, g_ctx.last, g_ctx.caught, g_ctx.error, g_ctx.number, g_thrown)
+__CPROVER_ensures(__CPROVER_return_value == 0 || __CPROVER_return_value == 1)
+__CPROVER_ensures(__CPROVER_return_value == 1 ==> (g_sign_r == RLC_POS && g_sign_s == RLC_POS && g_zero_s == 0 && g_cmp_r == RLC_LT && g_cmp_s == RLC_LT))
+/* the public key is a point of the curve other than the identity */
+__CPROVER_ensures(__CPROVER_return_value == 1 ==> (g_oncurve == 1 && g_infty_q == 0))
+__CPROVER_ensures(__CPROVER_return_value == 1 ==> (g_cmpsec == RLC_EQ && g_cmpsec_len == e->used && g_last_mod_used == e->used && g_mulsim_calls == 1 && g_md_calls == 1))
+__CPROVER_ensures(g_ctx.last == __CPROVER_old(g_ctx.last))
+;
+#endif
 #include "vc_spec_pop.h"
